@@ -36,6 +36,9 @@ RULE = ('random ambiguous grammars (<=4 non-terminals, <=3 alternatives of lengt
         'inlined _rules (ambiguous intermediate node over an ambiguous inlined child, 2-3 levels, ?rules, !rules, filtered and '
         'kept tokens) x 3 lexers x placeholders on/off, same oracle and Coq comparisons; the random generator draws 20% of '
         'its acyclic grammars from the same class (gen_chain_grammar); '
+        'overlap-corpus stream (fixed) and 20% of the ignore / dyn-families grammars: regexp terminals overlapping the ignored '
+        'characters (AS = /a\\s/ next to A = "a", greedy %ignore WS, several blanks): one item carried to a position from '
+        'two origins; '
         'dyn-families stream: the same add_family log comparison for the dynamic lexers (with %ignore carry-over) against '
         'Forest/ExplicitDynBuild on recorded regex answers, plus the local-form check of every family over the position '
         'graph of the text; '
